@@ -1,3 +1,5 @@
+use statrs::function::gamma::ln_gamma;
+
 use crate::{
     calc_result::CalcResult,
     expressions::{
@@ -9,6 +11,10 @@ use crate::{
 };
 
 fn log_factorial(n: u64) -> f64 {
+    // the loop costs n steps: beyond a few thousand the log-gamma function is used
+    if n > 10_000 {
+        return ln_gamma(n as f64 + 1.0);
+    }
     (1..=n).map(|i| (i as f64).ln()).sum()
 }
 
@@ -125,7 +131,7 @@ impl<'a> Model<'a> {
 
         // Compute (sum)! / (n1! * n2! * ... * nk!) using f64 to handle large values.
         // Use the log-factorial approach for numerical stability.
-        let sum: u64 = values.iter().sum();
+        let sum: u64 = values.iter().fold(0u64, |acc, &v| acc.saturating_add(v));
         let log_result = log_factorial(sum) - values.iter().map(|&v| log_factorial(v)).sum::<f64>();
         let result = log_result.exp();
         if !result.is_finite() {
